@@ -492,14 +492,23 @@ bool encode_array::shift(size_t len)
 	// move data segment to front
 	if (!len) {
 		size_t max, len = _state.done + _state.scratch;
-		if ((max = _d.length() <= len)) {
+		if ((max = _d.length()) <= len) {
 			return false;
 		}
 		uint8_t *d = reinterpret_cast<uint8_t *>(_d.base());
 		size_t shift = max - len;
-		memcpy(d, d + shift, len);
-		_d.set(len);
-		return true;
+		array::content *c = const_cast<array::content *>(_d.data());
+		// storage may be referenced by other arrays
+		if (c->shared() || c->immutable()) {
+			array keep;
+			if (!keep.set(len, d + shift)) {
+				return false;
+			}
+			_d = keep;
+			return true;
+		}
+		memmove(d, d + shift, len);
+		return c->set_length(len);
 	}
 	// consume terminated data
 	if (len > _state.done) {
